@@ -308,8 +308,11 @@ impl MerkleTree {
 
     /// nodes read from the local tree store (and those waiting to be flushed) describe less than 2^48 bytes each
     pub open spec fn nodes_small(&self, nodes: &IntMap<Option<Node>>) -> bool {
-        &&& forall|k: u64| #![trigger nodes@[k]] nodes@.contains_key(k) && nodes@[k] is Some ==> nodes@[k]->Some_0.length <= 0xffff_ffff_ffff
-        &&& forall|k: u64| #![trigger self.unflushed@[k]] self.unflushed@.contains_key(k) ==> self.unflushed@[k].length <= 0xffff_ffff_ffff
+        &&& map_small(*nodes)
+        &&& self.unflushed_small()
+    }
+    pub open spec fn unflushed_small(&self) -> bool {
+        forall|k: u64| #![trigger self.unflushed@[k]] self.unflushed@.contains_key(k) ==> self.unflushed@[k].length <= 0xffff_ffff_ffff
     }
 
     /*@ fn src/tree/merkle_tree.rs MerkleTree::seek_trusted_tree
@@ -369,7 +372,7 @@ impl MerkleTree {
     tags: C09 C03
     result: r
     requires:
-        self.t_wf(), self.roots_wf(), self.nodes_small(nodes), index < 0x400_0000_0000
+        self.t_wf(), self.roots_wf(), self.nodes_small(nodes), index < 0x8000_0000_0000
     ensures:
         r is Ok && r->Ok_0 is Right ==> r->Ok_0->Right_0 <= 0x80_0000_0000_0000
     sub `for root_node in &self\.roots \{` => `let mut vp_i: usize = 0; while vp_i < self.roots.len() { let root_node = &self.roots[vp_i]; vp_i += 1;`
@@ -379,7 +382,7 @@ impl MerkleTree {
         proof { let ghost ix = index; assert(((ix & 1) == 1) == (ix % 2 == 1)) by (bit_vector); }
     loop 1:
         invariant
-            self.t_wf(), self.roots_wf(), self.nodes_small(nodes), index < 0x400_0000_0000, index % 2 == 0,
+            self.t_wf(), self.roots_wf(), self.nodes_small(nodes), index < 0x8000_0000_0000, index % 2 == 0,
             vp_i <= self.roots@.len(), head == root_start(self.roots@, vp_i as int), index >= head, offset <= vp_i * 0x1_0000_0000_0000, head % 2 == 0, head <= 2 * self.length
         decreases self.roots@.len() - vp_i
     before `head += 2 * ((root_node.index - head) + 1);`:
@@ -414,6 +417,48 @@ impl MerkleTree {
         }
     before `iter.sibling();`:
         proof { assert(p2(iter.d@ + 1) == 2 * p2(iter.d@)); flat_tree::lemma_p2_4x(); flat_tree::lemma_p2_mono(iter.d@, 42); }
+    @*/
+
+    /*@ fn src/tree/merkle_tree.rs MerkleTree::seek_untrusted_tree
+    tags: C09 C03
+    result: r
+    requires:
+        self.t_wf(), self.roots_wf(), self.nodes_small(nodes), root < 0x2000_0000_0000
+    ensures:
+        r is Ok && r->Ok_0 is Right ==> r->Ok_0->Right_0 < 0x8000_0000_0000
+    sub `instructions\.extend\((\w+)\);` => `vp_extend(&mut instructions, \1);`
+    @*/
+
+    /// a tree that holds blocks has a signature over them (established by open / commit)
+    pub open spec fn sig_wf(&self) -> bool { self.length > 0 ==> self.signature is Some }
+
+    /*@ fn src/tree/merkle_tree.rs MerkleTree::create_valueless_proof
+    tags: C09 C03 C05
+    result: r
+    requires:
+        old(self).t_wf(), old(self).roots_wf(), old(self).sig_wf(), old(self).unflushed_small(), infos_small(infos), infos_readable(infos),
+        // C09: every numeric field of the request is below 2^40 (hash indices are tree indices: below 2^41)
+        block is Some ==> block->Some_0.index < 0x100_0000_0000,
+        hash is Some ==> hash->Some_0.index < 0x200_0000_0000,
+        upgrade is Some ==> upgrade->Some_0.start < 0x100_0000_0000 && upgrade->Some_0.length < 0x100_0000_0000
+    ensures:
+        *final(self) == *old(self),
+        // what is served: this tree's fork; the requested block / hash index and upgrade range; the stored signature (C05)
+        r is Ok && r->Ok_0 is Right ==> r->Ok_0->Right_0.fork == old(self).fork
+            && (r->Ok_0->Right_0.block is Some) == (block is Some) && (block is Some ==> r->Ok_0->Right_0.block->Some_0.index == block->Some_0.index)
+            && (r->Ok_0->Right_0.hash is Some) == (block is None && hash is Some) && (block is None && hash is Some ==> r->Ok_0->Right_0.hash->Some_0.index == hash->Some_0.index)
+            && (r->Ok_0->Right_0.upgrade is Some) == (upgrade is Some)
+            && (upgrade is Some ==> r->Ok_0->Right_0.upgrade->Some_0.start == upgrade->Some_0.start && r->Ok_0->Right_0.upgrade->Some_0.length == upgrade->Some_0.length
+                    && old(self).signature is Some && r->Ok_0->Right_0.upgrade->Some_0.signature@ == old(self).signature->Some_0.sig_bytes()
+                    // only a range that lies inside the log is served
+                    && upgrade->Some_0.length > 0 && upgrade->Some_0.start + upgrade->Some_0.length <= old(self).length),
+        r is Ok && upgrade is None ==> old(self).length > 0
+    sub `instructions\.extend\((\w+)\);` => `vp_extend(&mut instructions, \1);`
+    sub `(?s)p\.nodes\.ok_or_else\(\|\| (HypercoreError::InvalidOperation \{.*?\})\)\?` => `(match p.nodes { Some(vp_n) => vp_n, None => { return Err(\1); } })`
+    sub `(?s)p\.seek\.map\(\|p_seek\| DataSeek \{(.*?)\}\)` => `match p.seek { Some(p_seek) => Some(DataSeek {\1}), None => None }`
+    sub `p\.additional_upgrade\.unwrap_or_default\(\)` => `(match p.additional_upgrade { Some(vp_a) => vp_a, None => Vec::new() })`
+    after `let nodes: IntMap<Option<Node>> = self.infos_to_nodes(infos)?;`:
+        proof { assert(self.nodes_small(&nodes)); }
     @*/
 }
 
